@@ -93,3 +93,63 @@ Theorem C21_argmin_invariant :
      (feas' x /\ forall y, feas' y -> (f x + a) * s <= (f y + a) * s)).
 Proof. exact argmin_invariant. Qed.
 Print Assumptions C21_argmin_invariant.
+
+(* ------------------------------------------------------------------ the optimum (ProofsKKT.v) *)
+From OMV Require Import C21.ModelKKT C21.ProofsKKT.
+
+(* KKT sufficiency for convex QPs  min 1/2 x'Hx - b'x  s.t. lo_i <= a_i.x <= hi_i (sides optional,
+   equality = equal sides), any dimension n, any number of rows: a KKT point minimises f over the
+   feasible set (H symmetric, positive semidefinite) *)
+Theorem C21_kkt_sufficient :
+  forall n h b x cl,
+    symmetric n h -> psd n h -> kkt n h b x cl ->
+    forall y, feasible n (map fst cl) y -> fq n h b x <= fq n h b y.
+Proof. exact kkt_sufficient. Qed.
+Print Assumptions C21_kkt_sufficient.
+
+(* ... and with H positive definite (d'Hd > 0 for d <> 0) it is the unique minimiser *)
+Theorem C21_kkt_unique :
+  forall n h b x cl,
+    symmetric n h -> pdef n h -> kkt n h b x cl ->
+    forall y, feasible n (map fst cl) y -> fq n h b y <= fq n h b x ->
+    forall i, (i < n)%nat -> y i == x i.
+Proof. exact kkt_unique. Qed.
+Print Assumptions C21_kkt_unique.
+
+(* M M' + diag(D) with D > 0 is positive definite (the certificate of strict convexity) *)
+Theorem C21_gram_pdef :
+  forall n m mm dd, (forall i, (i < n)%nat -> 0 < dd i) -> pdef n (gram n m mm dd).
+Proof. exact gram_pdef. Qed.
+Print Assumptions C21_gram_pdef.
+
+(* soundness of the boolean checkers run by the correspondence on the oracle's exact optimum and
+   multipliers: acceptance certifies that x is feasible, minimal and the only minimiser *)
+Theorem C21_certified_optimum :
+  forall n m H M D b cl x,
+    gram_check n m H M D = true -> kkt_check n H b cl x = true ->
+    feasible n (map fst cl) (vec x) /\
+    (forall y, feasible n (map fst cl) y -> fq n (mat H) (vec b) (vec x) <= fq n (mat H) (vec b) y) /\
+    (forall y, feasible n (map fst cl) y -> fq n (mat H) (vec b) y <= fq n (mat H) (vec b) (vec x) ->
+               forall i, (i < n)%nat -> y i == vec x i).
+Proof. exact certified_optimum. Qed.
+Print Assumptions C21_certified_optimum.
+
+(* independence of the driver scaling: positive objective scaler/adder, any bijective change of the
+   design coordinates (design-variable scaler of either sign and adder), any equivalent description
+   of the feasible set in the scaled coordinates: the unique minimiser is the image of the same point *)
+Theorem C21_optimum_independent_of_scaling :
+  forall n h b x cl (af sf : Q) (T Tinv : (nat -> Q) -> (nat -> Q)) (feas' : (nat -> Q) -> Prop),
+    symmetric n h -> pdef n h -> kkt n h b x cl ->
+    0 < sf ->
+    (forall z i, (i < n)%nat -> T (Tinv z) i == z i) ->
+    (forall z, feas' z <-> feasible n (map fst cl) (Tinv z)) ->
+    (forall u v, (forall i, (i < n)%nat -> u i == v i) -> forall i, (i < n)%nat -> T u i == T v i) ->
+    (forall i, (i < n)%nat -> Tinv (T x) i == x i) ->
+    feas' (T x) ->
+    (forall z, feas' z ->
+       (fq n h b (Tinv (T x)) + af) * sf <= (fq n h b (Tinv z) + af) * sf) /\
+    (forall z, feas' z ->
+       (fq n h b (Tinv z) + af) * sf <= (fq n h b (Tinv (T x)) + af) * sf ->
+       forall i, (i < n)%nat -> z i == T x i).
+Proof. exact optimum_independent_of_scaling. Qed.
+Print Assumptions C21_optimum_independent_of_scaling.
